@@ -692,7 +692,7 @@ def ob_register_dispatcher(ctx, tier):
         if not tf or ("*r%d.0" % ve[0].idx) not in repr(tf[0].args[0]):
             c.fail("register_dispatcher_token_not_the_slots", p)
         # the slot list is only asked for the vacant entry: nothing else (no other lookup, no structural change)
-        other = [e for e in calls(p, r"SourceList::<.*>::\w+$") if not e.callee.endswith("::vacant_entry")]
+        other = [e for e in calls(p, r"SourceList::<.*>::\w+$") if not re.search(r"::(vacant_entry|get|len|is_empty|iter)$", e.callee)]
         if other:
             c.fail("register_dispatcher_changes_the_slot_list_beyond_its_entry", p)
         failed, _ = entails(ctx, p.pc, dz(rg[0].ret.disc) == 1)
@@ -1914,6 +1914,16 @@ def ob_timer(ctx, tier):
                     c.fail("deadline_not_updated_to_rescheduled_instant", p)
                 if "a1_0_Some" not in str(ir[0].args[1]):
                     c.fail("reschedule_does_not_reuse_own_counter", p)
+                # the new deadline is what the callback asked for: ToInstant(x) => x; ToDuration(d) => some instant + d
+                # (which base instant is used -- the code reads the clock after the callback -- is not part of C05)
+                want = repr(ir[0].args[2])
+                if entails(ctx, p.pc, dz(ad) == 1)[0]:
+                    if ("r%d@ToInstant.0" % cbs[0].idx) not in want:
+                        c.fail("rescheduled_to_another_instant_than_requested", p)
+                else:
+                    ca = [e for e in calls(p, r"Instant::checked_add$") if e.idx > cbs[0].idx]
+                    if not ca or ("r%d@Some.0" % ca[-1].idx) not in want or ("r%d@ToDuration.0" % cbs[0].idx) not in repr(ca[-1].args[1]):
+                        c.fail("rescheduled_duration_is_not_the_requested_one", p)
         else:
             # overflowed ToDuration
             timer = p.frames[0].locals["_1"].value.pointee.value
